@@ -35,7 +35,10 @@ def main (args : List String) : IO UInt32 := do
   for (c, ci) in env.constants.map₁.toList do
     if env.getModuleIdxFor? c == some idx then
       match ci with
-      | .thmInfo _ => if !c.isInternal then names := names.push c
+      | .thmInfo _ =>
+        -- skip compiler-generated equation/unfold lemmas (`f.eq_1`, `f.eq_def`, …): they are not property theorems
+        let last := match c with | .str _ s => s | _ => ""
+        if !c.isInternal && !(last.startsWith "eq_") && last != "eq_def" then names := names.push c
       | _ => pure ()
   for c in names.qsort Name.lt do
     let (_, s) := (walk env c).run {}
